@@ -207,6 +207,9 @@ func (h *NFSProcedureHandler) handleCreate(body io.Reader, reply *RPCReply, auth
 	if sattr.SetSize && sattr.Size > 0 {
 		// the initial size requested by sattr3
 		if err := h.server.handler.fs.Truncate(targetPath, int64(sattr.Size)); err != nil {
+			// the file was made a moment ago by this request: a CREATE that fails leaves nothing behind
+			h.server.handler.undoCreate(node.path, targetPath)
+			h.server.handler.exclusiveVerf.Delete(targetPath)
 			return nfsErrorWithWcc(reply, mapError(err)), nil
 		}
 		h.server.handler.attrCache.Invalidate(targetPath)
